@@ -525,3 +525,68 @@ def rule_pointer_order(db, chk, cfg):
                               "unordered container member %s" % dqt(fd), where(fd), cfg=cfg)
     chk.instance("DET.relational-comparisons", {"count": n, "cfg": cfg}, n=max(n, 1))
     return n
+
+
+# ---- R2b: the shared container itself is read-only for its users ---------------------
+
+CONTAINER_STRUCT = '%"class.Clipper2Lib::ReuseableDataContainer64"'
+
+
+def rule_r2b(db, mod, chk, cfg, rule="R2b.container-read-only"):
+    """A ReuseableDataContainer64 may be shared by clippers running on different threads, so only its own methods may
+    write it: (a) it has no `mutable` member (a const reference must really be read-only); (b) in the IR no function
+    outside the class stores through a pointer derived from a member of the container."""
+    rec = db.record("ReuseableDataContainer64")
+    n = 0
+    for fd in rec.fields:
+        n += 1
+        ok = not fd.get("mutable")
+        chk.instance(rule, {"member": fd.get("name"), "mutable": bool(fd.get("mutable")), "cfg": cfg}, ok=ok)
+        if not ok:
+            chk.violation(rule, "ReuseableDataContainer64", fd.get("name"),
+                          "member '%s' of the shareable container is declared mutable: code holding a const reference (every clipper that "
+                          "uses the container) can write it, which is a data race between threads sharing the container" % fd.get("name"),
+                          where(fd), cfg=cfg)
+    summ = written_param_summary(mod)
+    for name, f in mod.funcs.items():
+        d = f.demangled
+        if d.startswith("Clipper2Lib::ReuseableDataContainer64::"):
+            continue
+        derived = set()
+        insts = list(f.insts())
+        changed = True
+        while changed:
+            changed = False
+            for i in insts:
+                if i.dst is None or i.dst in derived:
+                    continue
+                if i.op == "getelementptr" and (i.struct == CONTAINER_STRUCT and i.idx and len(i.idx) >= 2 or i.src in derived):
+                    derived.add(i.dst)
+                    changed = True
+                elif i.op == "bitcast" and i.src in derived:
+                    derived.add(i.dst)
+                    changed = True
+        if not derived:
+            continue
+        writes = []
+        for i in insts:
+            if i.op == "store" and i.ptr in derived:
+                writes.append(i)
+            elif i.op in ("call", "invoke") and i.args:
+                for k, (v, _) in enumerate(i.args):
+                    if v in derived and (i.callee is None or k in summ.get(_resolve_alias(mod, i.callee), ())):
+                        # const member functions of std containers take `this` but never write through it
+                        cal = _resolve_alias(mod, i.callee) if i.callee else None
+                        dem = mod.funcs[cal].demangled if cal in mod.funcs else ""
+                        if dem.rstrip().endswith("const"):
+                            continue
+                        writes.append(i)
+        n += 1
+        ok = not writes
+        chk.instance(rule, {"function": f.short, "touches_container_members": True, "writes": len(writes), "cfg": cfg}, ok=ok)
+        if writes:
+            chk.violation(rule, f.short, "container",
+                          "writes a member of a ReuseableDataContainer64 from outside the class (lines %s); clippers on different threads may "
+                          "share one container, which must stay read-only for them" % sorted({w.line for w in writes if w.line})[:5],
+                          "IR function " + f.name, cfg=cfg)
+    return n
